@@ -133,7 +133,7 @@ type ixDeleter struct {
 
 type ixRun struct {
 	calls    int
-	callLog  []int // did per call
+	callLog  []int    // did per call
 	keyLog   []string // key per call
 	outLog   []int    // outcome per call: 0 removed, 1 not found, 2 injected failure, 3 other error
 	faults   map[int]bool
@@ -859,7 +859,7 @@ func runC17(o Opts) *Result {
 			fail.Replay = map[string]interface{}{"engine": "inval", "profile": "c17", "seed": o.Seed, "index": idx, "skipInterval": int64(skip), "callbacks": ncb,
 				"concurrent": concurrent, "results": trace, "rerun": fmt.Sprintf("harness inval -profile c17 -seed %d -only %d", o.Seed, idx)}
 			res.Violations = append(res.Violations, *fail)
-			if len(res.Violations) >= 5 {
+			if res.full() {
 				break
 			}
 		}
